@@ -1,5 +1,7 @@
 #!/usr/bin/env python3
-"""seed_index.py <run_seeds output file>: writes /verif/seeded/INDEX.md - one row per seeded change: property, files touched,
+"""seed_index.py <run_seeds output file>: also writes /verif/replay/seed_index.json (obligations that caught a seed -> its demonstration test,
+used as replay adapters: a demonstration that FAILS on the tree under check is a concrete failing input / schedule on the real code).
+Writes /verif/seeded/INDEX.md - one row per seeded change: property, files touched,
 what the change does (first paragraph of the author's notes), and the obligation that caught it in the given run."""
 import sys,os,re,json,glob
 res={}
@@ -38,4 +40,20 @@ out=['# Seeded changes (must-fail corpus)','',
 det=sum(1 for n in res if res[n][0]=='DETECTED'); 
 out+=['','%d seeds, %d detected in this run.'%(len(rows),det)]
 open('/verif/seeded/INDEX.md','w').write('\n'.join(out)+'\n')
-print(len(rows),'seeds,',det,'detected')
+# replay adapters from the full outputs of the runs
+adapters=[]
+for d in sorted(glob.glob('/verif/seeded/C*')):
+    name=os.path.basename(d); f='/verif/out/seedruns/%s.txt'%name
+    if not os.path.isfile(f) or not os.path.isfile(d+'/demo_test.go'): continue
+    meta=json.load(open(d+'/meta.json'))
+    obs=[]
+    for l in open(f):
+        m=re.match(r'\s+FAILED\s+(\S+)\s+(\S.*?)\s+\((?:z3|cvc5|binder)',l)
+        if m and m.group(1)!='violated':
+            ob=re.sub(r'#\d+$','',m.group(2).strip())
+            if ob not in obs: obs.append(ob)
+    for ob in obs[:6]:
+        adapters.append({"obligation":re.escape(ob)+r'(#\d+)?$',"dir":meta['demo_package_dir'],"file":"seeded/%s/demo_test.go"%name,
+            "test":meta['demo_test'],"what":"demonstration test of seeded change %s (written from the property text by an independent author; passes on healthy code)"%name})
+json.dump(adapters,open('/verif/replay/seed_index.json','w'),indent=1)
+print(len(rows),'seeds,',det,'detected;',len(adapters),'replay adapters from demonstrations')
